@@ -79,7 +79,7 @@ func (ex *Exec) SweepKeys() []string {
 		if fn.Parent() != nil || fn.Synthetic != "" || fn.Blocks == nil {
 			continue
 		}
-		if fn.Name() == "init" || strings.HasPrefix(fn.Name(), "lemma") {
+		if fn.Name() == "init" || (strings.HasPrefix(fn.Name(), "lemma") && os.Getenv("GOVC_SWEEP_LEMMAS") == "") {
 			continue
 		}
 		out = append(out, k)
